@@ -167,7 +167,9 @@ func TestPropRangeProofs(t *testing.T) {
 		func(rt *rapid.T, c *stats.Case) {
 			const height = 251
 			pool, poolKind := keyPool(rt, height)
-			model, order := drawModel(rt, pool, 12)
+			model, order, nbKeys := drawModel(rt, pool, 12, height)
+			pool = append(pool, nbKeys...)
+			labelDup(c, height, model)
 			if stats.Known(kfTrie2RangeSharedNode) {
 				// known finding: two sibling sub-tries with the same hash share ONE proof node object and trie2's fork detection
 				// compares pointers (panic / wrong result on an honest range). Equal values are what makes sub-tries equal:
@@ -290,6 +292,11 @@ func TestPropRangeProofs(t *testing.T) {
 						if msg, p := guarded(func() { hc.nodes, err = im.rangeProof(&h.first, &right) }); p || err != nil {
 							c.Violation("rangeproof-error", "%s GetRangeProof(%s, %s): %v %s (model %s)", im.name(), h.first.String(), right.String(), err, msg, renderKV(model))
 						}
+					}
+					// independent of the verifier under test: the node set GetRangeProof filled for two keys must lead from the
+					// reference root to both of them (no hole where the two paths run through identical sub-tries)
+					if !hc.nilProof && len(entries) > 0 && edgeProofIncomplete(hc) {
+						c.Violation("rangeproof-incomplete", "%s GetRangeProof(%s, last key): the node set does not lead from the reference root to both boundary keys\n%v\nmodel %s", im.name(), hc.first.String(), hc, renderKV(model))
 					}
 					var more bool
 					var err error
